@@ -653,3 +653,110 @@ reg.add(Proc(D + 'noLongerProvides', [('object', OBJ), ('interface', OBJ)], sour
                  ('the-class-is-no-sequence', z3.And(z3.Not(is_seq(c.h('__class__')[c.a.object])), z3.Not(is_list(c.h('__class__')[c.a.object]))))],
              raises={'ValueError': (lambda c: provides_rel(c.a.interface, c.a.object), None)},
              ensures=_nlp_post))
+
+
+# ------------------------------------------------------------------ class-as-object declarations and the two descriptors
+reg.add(Proc(D + 'ClassProvides.__init__', [('self', OBJ), ('cls', OBJ), ('metacls', OBJ)], varargs='interfaces',
+             source='declarations.py:ClassProvides.__init__', classname='ClassProvides',
+             calls={'self._add_interfaces_to_cls': D + 'Declaration._add_interfaces_to_cls', 'implementedBy': D + 'implementedBy'},
+             opaque_calls={'Declaration.__init__': _declaration_init},
+             modifies=['_ClassProvides__args', '_cls', '_implements', '_bases'],
+             ensures=lambda c: [('constructor-arguments-kept-for-pickling', c.h('_ClassProvides__args')[c.a.self] == Concat(Unit(c.a.cls), Unit(c.a.metacls), c.a.interfaces)),
+                                ('class-recorded', c.h('_cls')[c.a.self] == c.a.cls),
+                                ('instances-are-answered-with-the-class-specification', c.h('_implements')[c.a.self] == impl(c.a.cls)),
+                                ('bases-are-the-interfaces-the-metaclass-does-not-imply-then-the-metaclass-specification',
+                                 c.h('_bases')[c.a.self] == provided_bases(c, c.a.interfaces, c.a.metacls))]))
+
+reg.add(Proc(D + 'ClassProvidesBase.__get__', [('self', OBJ), ('inst', OBJ), ('cls', OBJ)], source='declarations.py:ClassProvidesBase.__get__',
+             result=OBJ,
+             raises={'AttributeError': (lambda c: c.a.cls != c.h('_cls')[c.a.self], None)},
+             ensures=lambda c: [('the-class-itself-sees-its-own-declaration', z3.Implies(c.a.inst == NONE, c.res == c.a.self)),
+                                ('its-instances-see-the-class-specification-not-the-class-declaration',
+                                 z3.Implies(c.a.inst != NONE, c.res == c.h('_implements')[c.a.self]))]))
+reg.add(Proc(D + 'ProvidesClass.__get__', [('self', OBJ), ('inst', OBJ), ('cls', OBJ)], source='declarations.py:Provides@class.__get__',
+             result=OBJ,
+             raises={'AttributeError': (lambda c: z3.Not(z3.And(c.a.inst == NONE, c.a.cls == c.h('_cls')[c.a.self])), None)},
+             ensures=lambda c: [('only-the-class-it-was-made-for-sees-it', c.res == c.a.self)]))
+
+
+# ------------------------------------------------------------------ queries: attribute protocol of providedBy (Python reference)
+reg.fields.update({'__providedBy__': OBJ, '_super_cache': OBJ})
+has_pb = z3.Function('hasattr___providedBy__', Obj, B)
+has_extends = z3.Function('hasattr_extends', Obj, B)
+attr_raises_other = z3.Function('attribute_access_raises_other', Obj, Int, B)      # a descriptor raising something else
+SPECBASE = classconst('SpecificationBase')
+SUPERCLS = classconst('super')
+IMPLEMENTEDBY = z3.Function('implementedBy_result', Obj, Obj)      # implementedBy(x) incl. the super dispatch (C19) and fallbacks
+
+
+def _attr(name, has, idx):
+    def handler(ex, node, st, recv):
+        a = st.clone()
+        a.assume(z3.And(z3.Not(has(recv.t)), z3.Not(attr_raises_other(recv.t, idx))))
+        ex.raise_(a, 'AttributeError')
+        b = st.clone()
+        b.assume(z3.And(z3.Not(has(recv.t)), attr_raises_other(recv.t, idx)))
+        ex.raise_(b, 'OtherError')
+        st.assume(has(recv.t))
+        return [(st, ex.read_field(st, recv.t, name))]
+    return handler
+
+
+DYN = {'__provides__': _attr('__provides__', has_provides, 1), '__providedBy__': _attr('__providedBy__', has_pb, 2),
+       '__class__': _attr('__class__', has_class, 3), 'extends': _attr('__class__', has_extends, 4)}
+reg.add(Proc(D + 'implementedBy@any', [('cls', OBJ)], result=OBJ, trusted=True, pure_fn=lambda c: IMPLEMENTEDBY(c.a.cls),
+             note='implementedBy of anything (class, super proxy, builtin): C19 verifies the super branch, the rest is bounded'))
+
+
+def _gos_post(c):
+    ob = c.a.ob
+    p = c.h('__provides__')[ob]
+    usable = z3.And(has_provides(ob), p != NONE, subtype(typeof(p), SPECBASE))
+    return [('a-declaration-carried-by-the-object-wins', z3.Implies(usable, c.res == p)),
+            ('otherwise-what-its-class-implements', z3.Implies(z3.And(z3.Not(usable), has_class(ob)), c.res == IMPLEMENTEDBY(c.h('__class__')[ob]))),
+            ('without-a-class-nothing', z3.Implies(z3.And(z3.Not(usable), z3.Not(has_class(ob))), c.res == EMPTYDECL))]
+
+
+def _no_other(c, ob, *idx):
+    return z3.And(*[z3.Not(attr_raises_other(ob, i)) for i in idx])
+
+
+reg.add(Proc(D + 'getObjectSpecification', [('ob', OBJ)], source='declarations.py:getObjectSpecification', result=OBJ,
+             globals={'_empty': V(OBJ, EMPTYDECL)}, dynattr=DYN, calls={'implementedBy': D + 'implementedBy@any'},
+             requires=lambda c: [('attribute-access-raises-only-AttributeError', _no_other(c, c.a.ob, 1, 3))], ensures=_gos_post))
+reg.add(Proc(D + 'getObjectSpecification@contract', [('ob', OBJ)], result=OBJ, trusted=True,
+             pure_fn=lambda c: z3.Function('getObjectSpecification_result', Obj, Obj)(c.a.ob), note='verified above'))
+
+
+def _osd_post(c):
+    inst, cls = c.a.inst, c.a.cls
+    return [('accessed-on-the-class-the-specification-of-the-class-object', z3.Implies(
+        inst == NONE, c.res == z3.Function('getObjectSpecification_result', Obj, Obj)(cls))),
+        ('an-instance-declaration-wins', z3.Implies(z3.And(inst != NONE, has_provides(inst)), c.res == c.h('__provides__')[inst])),
+        ('otherwise-what-the-class-implements', z3.Implies(z3.And(inst != NONE, z3.Not(has_provides(inst))), c.res == IMPLEMENTEDBY(cls)))]
+
+
+reg.add(Proc(D + 'ObjectSpecificationDescriptor.__get__', [('self', OBJ), ('inst', OBJ), ('cls', OBJ)],
+             source='declarations.py:ObjectSpecificationDescriptor.__get__', result=OBJ, dynattr=DYN,
+             calls={'implementedBy': D + 'implementedBy@any', 'getObjectSpecification': D + 'getObjectSpecification@contract'},
+             raises={'OtherError': (lambda c: z3.And(c.a.inst != NONE, z3.Not(has_provides(c.a.inst)), attr_raises_other(c.a.inst, 1)), None)},
+             ensures=_osd_post))
+
+
+def _pb_post(c):
+    ob = c.a.ob
+    is_super = subtype(typeof(ob), SUPERCLS)
+    r = c.h('__providedBy__')[ob]
+    GOS = z3.Function('getObjectSpecification_result', Obj, Obj)
+    return [('a-super-proxy-is-answered-by-implementedBy-alone', z3.Implies(is_super, c.res == IMPLEMENTEDBY(ob))),
+            ('without-__providedBy__-the-object-specification', z3.Implies(z3.And(z3.Not(is_super), z3.Not(has_pb(ob))), c.res == GOS(ob))),
+            ('a-real-specification-from-the-descriptor-is-returned', z3.Implies(
+                z3.And(z3.Not(is_super), has_pb(ob), has_extends(r)), c.res == r))]
+
+
+reg.add(Proc(D + 'providedBy', [('ob', OBJ)], source='declarations.py:providedBy', result=OBJ, dynattr=DYN,
+             calls={'implementedBy': D + 'implementedBy@any', 'getObjectSpecification': D + 'getObjectSpecification@contract'},
+             requires=lambda c: [('the-object-has-a-class', has_class(c.a.ob)), ('attribute-access-raises-only-AttributeError', z3.And(
+                 _no_other(c, c.a.ob, 1, 2, 3), _no_other(c, c.h('__providedBy__')[c.a.ob], 4),
+                 z3.Implies(has_class(c.a.ob), _no_other(c, c.h('__class__')[c.a.ob], 1))))],
+             ensures=_pb_post))
